@@ -56,6 +56,14 @@ func main() {
 		fmt.Print(runTranslate(name))
 		return
 	}
+	if mode == "mkgolden" {
+		// wh mkgolden <dir>: (re)write the golden fixtures with the code in /repo
+		if err := mkGolden(name); err != nil {
+			fmt.Fprintln(os.Stderr, "mkgolden:", err)
+			os.Exit(1)
+		}
+		return
+	}
 	fs := flag.NewFlagSet(name, flag.ExitOnError)
 	seed := fs.Int64("seed", 1, "PRNG seed")
 	n := fs.Int("n", 100, "number of cases")
